@@ -12,6 +12,7 @@ import (
 	"sort"
 	"strconv"
 	"strings"
+	"testing/iotest"
 	"time"
 	"unicode"
 	"unicode/utf8"
@@ -289,10 +290,13 @@ func runLexer(def lexer.Definition, names map[lexer.TokenType]string, in string,
 			}
 		}()
 		var err error
-		if sd, ok := def.(lexer.StringDefinition); ok {
+		if sd, ok := def.(lexer.StringDefinition); ok && len(in)%3 != 2 {
 			l, err = sd.LexString(filename, in)
-		} else {
+		} else if len(in)%2 == 0 {
 			l, err = def.Lex(filename, strings.NewReader(in))
+		} else {
+			// (every third input goes through the reader entry point; these readers hand over the last bytes together with io.EOF)
+			l, err = def.Lex(filename, iotest.DataErrReader(strings.NewReader(in)))
 		}
 		if err != nil {
 			sb.WriteString("LEXINITERR")
